@@ -58,3 +58,19 @@ Print Assumptions C11_no_leak.
 Theorem C11_nonvacuous : nonvacuous_witness.
 Proof. exact nonvacuous_proof. Qed.
 Print Assumptions C11_nonvacuous.
+
+(* ---- the namespaces setting and the namespace check of the assembled document (Model/DomCheck.v) ---- *)
+Require Import PX.Spec.NsCheck PX.Model.DomCheck PX.Model.Headers PX.Proofs.NsSetting.
+(* every well-formed entry  prefix=uri  of the setting is declared on the root element ... *)
+Theorem C11_setting_entry_declared : forall root ns tok k v,
+  field root s_namespaces = Some ns -> In tok (py_split_ws ns) -> split_on 61%N tok = [k; v] -> k <> [] ->
+  has_key (s_xmlns_colon ++ k) (nsmap_of root) = true.
+Proof. exact setting_entry_declared. Qed.
+Print Assumptions C11_setting_entry_declared.
+(* ... and a name that uses a prefix the root declares (a column such as bind::ex:y) passes the code's prefix test on the root and on
+   every element below it, whatever else those elements declare *)
+Theorem C11_declared_prefix_usable : forall root p local rest,
+  has_key (XMLNS_COLON ++ p) (nsmap_of root) = true -> nochar NsCheck.COLON p = true ->
+  py_bound (rest ++ py_declared (nsmap_of root) ++ PY_SCOPE0) (p ++ NsCheck.COLON :: local) = true.
+Proof. exact setting_prefix_in_scope. Qed.
+Print Assumptions C11_declared_prefix_usable.
